@@ -304,7 +304,7 @@ class PropertyRun:
                     self.known.append((kf, o["name"]))
                     rec["known_finding"] = kf["id"]
                     continue
-                was_proved = expected is None or o["name"] in expected
+                was_proved = expected is None or o["name"] in expected or o.get("kind") not in ("post", "exc", "frame")
                 if confirmed:
                     if not any(v[1] == path for v in self.violations):
                         self.violations.append((o["name"], path, ""))
